@@ -206,7 +206,7 @@ func (tp *TableParser) parseTableColumns(cols []tableColXML) []float64 {
 		// Handle repeated columns
 		repeat := 1
 		if col.NumberRepeated != "" {
-			if r, err := strconv.Atoi(col.NumberRepeated); err == nil && r > 0 {
+			if r, err := strconv.Atoi(col.NumberRepeated); err == nil && r > 0 && r <= maxCellSpan {
 				repeat = r
 			}
 		}
@@ -218,6 +218,11 @@ func (tp *TableParser) parseTableColumns(cols []tableColXML) []float64 {
 
 	return widths
 }
+
+// maxCellSpan is the largest column/row span and column repetition accepted.
+// These numbers size the table grid; a larger value than any real table has is
+// treated like any other invalid value and ignored.
+const maxCellSpan = 1024
 
 // parseRow parses a table row.
 func (tp *TableParser) parseRow(row tableRowXML) ParsedTableRow {
@@ -257,14 +262,14 @@ func (tp *TableParser) parseCell(cell tableCellXML) ParsedTableCell {
 
 	// Parse column span
 	if cell.NumberColumnsSpanned != "" {
-		if span, err := strconv.Atoi(cell.NumberColumnsSpanned); err == nil && span > 0 {
+		if span, err := strconv.Atoi(cell.NumberColumnsSpanned); err == nil && span > 0 && span <= maxCellSpan {
 			parsed.ColSpan = span
 		}
 	}
 
 	// Parse row span
 	if cell.NumberRowsSpanned != "" {
-		if span, err := strconv.Atoi(cell.NumberRowsSpanned); err == nil && span > 0 {
+		if span, err := strconv.Atoi(cell.NumberRowsSpanned); err == nil && span > 0 && span <= maxCellSpan {
 			parsed.RowSpan = span
 		}
 	}
